@@ -5,8 +5,8 @@ For each seed: apply patch -> build -> demo must FAIL -> pinned baseline suite m
 usage: verify_seeds.py [Cxx/a ...]"""
 import json,os,re,subprocess,sys,shutil,glob,concurrent.futures as cf
 SRC=os.environ.get('SEED_SRC','/tmp/seedout')
-NMAP={'/tmp/seedout':{'a':'a','b':'b'},'/tmp/seedout2':{'a':'c','b':'d'},'/tmp/seedout3':{'a':'e','b':'f'},'/tmp/seedout4':{'a':'g','b':'h'},'/tmp/seedout5':{'a':'i','b':'j'},'/tmp/seedout6':{'a':'k','b':'l'},'/tmp/seedout7':{'a':'m','b':'n'},'/tmp/seedout8':{'a':'o','b':'p'}}[SRC]
-ROUND={'/tmp/seedout':1,'/tmp/seedout2':2,'/tmp/seedout3':3,'/tmp/seedout4':4,'/tmp/seedout5':5,'/tmp/seedout6':6,'/tmp/seedout7':7,'/tmp/seedout8':8}[SRC]
+NMAP={'/tmp/seedout':{'a':'a','b':'b'},'/tmp/seedout2':{'a':'c','b':'d'},'/tmp/seedout3':{'a':'e','b':'f'},'/tmp/seedout4':{'a':'g','b':'h'},'/tmp/seedout5':{'a':'i','b':'j'},'/tmp/seedout6':{'a':'k','b':'l'},'/tmp/seedout7':{'a':'m','b':'n'},'/tmp/seedout8':{'a':'o','b':'p'},'/tmp/seedout9':{'a':'q','b':'r'}}[SRC]
+ROUND={'/tmp/seedout':1,'/tmp/seedout2':2,'/tmp/seedout3':3,'/tmp/seedout4':4,'/tmp/seedout5':5,'/tmp/seedout6':6,'/tmp/seedout7':7,'/tmp/seedout8':8,'/tmp/seedout9':9}[SRC]
 ENV=dict(os.environ,GOFLAGS='-mod=mod',GOPROXY='off',GOSUMDB='off',GOTOOLCHAIN='local')
 ENV.pop('GOWORK',None)
 def sh(cmd,cwd=None,timeout=3000):
